@@ -439,6 +439,11 @@ def make_tasks(tier, seed):
   g1 = dict(M=3, L=4, nlon=8, nlat=5); g2 = dict(M=3, L=4, nlon=12, nlat=6, offset=0.2)
   tasks.append(dict(name='horizontal-same', fn='task_horizontal', kw=dict(src=g1, tgt=g1, same=True)))
   tasks.append(dict(name='horizontal-different', fn='task_horizontal', kw=dict(src=g2, tgt=g1, same=False)))
+  # grids whose longitudes leave [0, 2 pi): negative offset, offset of several cells, data on [-180, 180); equiangular latitudes
+  for k, off in enumerate((-0.1, 1.0471975511965976, -3.141592653589793, 5.5)):
+    go = dict(M=3, L=4, nlon=8, nlat=5 if k % 2 == 0 else 6, offset=off, spacing='gauss' if k % 2 == 0 else 'equiangular')
+    tasks.append(dict(name=f'horizontal-same-offset{k}', fn='task_horizontal', kw=dict(src=go, tgt=go, same=True)))
+  tasks.append(dict(name='horizontal-different-offsets', fn='task_horizontal', kw=dict(src=dict(M=3, L=4, nlon=12, nlat=6, offset=-0.3), tgt=dict(M=3, L=4, nlon=8, nlat=5, offset=2.0), same=False)))
   return tasks
 
 
